@@ -73,12 +73,12 @@ def pAssert {α} (p : α → Except Err Bool) (errName : Err) : PlainOp α α :=
     next := fun _ x => ((), (match p x with
       | .ok true => [.item x] | .ok false => [.fatal errName] | .error e => [.fatal e]), false) }
 
-/-- rxsci plain `assert_1`: `last = None` means "no previous item" (`isNone` recognises `None`) -/
-def pAssert1 {α} (p : α → α → Bool) (errName : Err) (isNone : α → Bool) : PlainOp α α :=
+/-- rxsci plain `assert_1`: previous item and "has a previous item" flag -/
+def pAssert1 {α} (p : α → α → Bool) (errName : Err) : PlainOp α α :=
   { σ := Option α, init := none, fin := fun _ => [],
     next := fun s x =>
       (some x, (match s with
-        | some prev => if isNone prev then [.item x] else if p prev x then [.item x] else [.fatal errName]
+        | some prev => if p prev x then [.item x] else [.fatal errName]
         | none => [.item x]), false) }
 
 /-! ## composition -/
